@@ -2,7 +2,7 @@
 
 use crate::rng::Rng;
 
-pub const CLASS_NAMES: [&str; 18] = [
+pub const CLASS_NAMES: [&str; 19] = [
     "zeros",
     "single_run",
     "period_p",
@@ -21,6 +21,7 @@ pub const CLASS_NAMES: [&str; 18] = [
     "mixed_segments",
     "lazy_chains",
     "window_edge_repeats",
+    "rare_strings_at_64k_periods",
 ];
 
 pub const NUM_CLASSES: usize = CLASS_NAMES.len();
@@ -132,6 +133,7 @@ pub fn gen(rng: &mut Rng, class: usize, n: usize) -> Vec<u8> {
         14 => (0..n).map(|_| rng.below(200) as u8).collect(),
         16 => lazy_chains(rng, n),
         17 => window_edge(rng, n),
+        18 => rare_periodic(rng, n),
         _ => {
             let mut v = Vec::with_capacity(n);
             while v.len() < n {
@@ -222,6 +224,33 @@ pub fn window_edge(rng: &mut Rng, n: usize) -> Vec<u8> {
             }
         }
         x += l + 60 + rng.below(700);
+    }
+    v
+}
+
+/// Low-entropy filler (6 symbols, so that only a few hundred of the 32768 trigram hash buckets
+/// are ever touched and every position has a pending lazy match of moderate length) with rare
+/// 3..=8-byte strings of high bytes planted at X and again exactly 65536 (also 32768, 131072)
+/// bytes later: between the two occurrences nothing else hashes into their buckets, so the
+/// 16-bit position tables of the match finder are revisited exactly one full period later.
+pub fn rare_periodic(rng: &mut Rng, n: usize) -> Vec<u8> {
+    let alpha: Vec<u8> = (0..6).map(|_| rng.below(0x60) as u8 & 0xef).collect();
+    let mut v: Vec<u8> = (0..n).map(|_| alpha[rng.below(6)]).collect();
+    let mut x = 300 + rng.below(3000);
+    let mut id = 0u32;
+    while x + 16 < n {
+        let l = 3 + rng.below(6);
+        id += 1;
+        let s: Vec<u8> = (0..l).map(|k| 0x80 | ((id >> (7 * (k % 3))) as u8 & 0x7f) ^ (k as u8 * 0x11 & 0x6f)).collect();
+        let period = *rng.pick(&[65_536usize, 65_536, 65_536, 32_768, 131_072, 65_535, 65_537]);
+        let reps = 1 + rng.below(3);
+        for r in 0..=reps {
+            let at = x + r * period;
+            if at + l < n {
+                v[at..at + l].copy_from_slice(&s);
+            }
+        }
+        x += 150 + rng.below(1500);
     }
     v
 }
